@@ -240,6 +240,8 @@ def _run(ctx, rng, kind, **kw):
                 if not is_pem and ("der" in mname or "p8" in mname):
                     for k2, mut in gen.der_struct_mutations(blob, R.walk(blob)):
                         cases.append(("tlv:" + k2, mut))
+                    for k2, mut in gen.der_tree_mutations(blob):       # one node edited, every enclosing length re-encoded
+                        cases.append((k2, mut))
                 for k2, data in cases:
                     for ent in ents:
                         feed(ctx, ent, data, k2, stats, curve.name)
